@@ -25,8 +25,8 @@ func TestMain(m *testing.M) {
 	run = ev.Start("C19", "exploration",
 		"rapid draws Config{Name, Version, Ignore, Requirements}: strings are arbitrary valid UTF-8 (rapid.String) or drawn from a hostile alphabet "+
 			"(quotes, backslash, newline, CR, tab, NUL, DEL, U+0085, U+2028, #, =, brackets, braces, dots, spaces, ''' and \"\"\"); requirement names are "+
-			"non-empty; requirement paths are in clean form (incl. @vN suffixes); versions are canonical semver (incl. pre-release and build-less). "+
-			"Oracle: Load(Write(c)) == c (nil and empty identified), Write(Load(Write(c))) byte-equal to Write(c), and a get/tidy-style rewrite (Load, replace "+
+			"non-empty, a third of them near-twins of an earlier name (other case, one letter toggled, trailing space or dot, combining accent); requirement paths are in clean form (incl. @vN suffixes); versions are canonical semver (incl. pre-release and build-less). "+
+			"Oracle: Load(Write(c)) == c (nil and empty identified), Write(Load(Write(c))) byte-equal to Write(c) on each of five repeated writes, and a get/tidy-style rewrite (Load, replace "+
 			"Requirements, Write, Load) keeps name, version and ignore. Non-trivial = some string needs quoting/escaping or a requirement name has a "+
 			"non-plain rune. Distinct by case JSON.",
 		"strings are valid UTF-8 (TOML cannot carry anything else)",
